@@ -2162,7 +2162,7 @@ fn async_module_execution_fulfilled(module: &Module, context: &mut Context) -> J
             let e = &JsError::from_opaque(e.into_opaque(context)?);
 
             // 1. Perform AsyncModuleExecutionRejected(m, result.[[Value]]).
-            async_module_execution_rejected(module, e, context)?;
+            async_module_execution_rejected(&m, e, context)?;
             continue;
         }
 
